@@ -68,7 +68,10 @@ def batch_package():
     protos.append(Proto("BtNullFirst", [("a", S(P("int32"))), ("marks", S(Opt(P("int32")))), ("o", Opt(P("string"))), ("t", S(U(((None, P("int32")), (None, P("string"))), True))), ("post", P("int32"))]))
     # two streams in one protocol: block bookkeeping must reset between steps
     protos.append(Proto("BtTwo", [("a", S(M(P("string"), P("int32")))), ("b", S(N("BtOuter"))), ("post", P("int32"))]))
-    return Pkg("Batch", [Inner, Outer, Triv, BtEnum, Flags, Mode, FlagInner, FlagRec, Gen] + protos)
+    BigRec = Rec("BtBigRec", [("u", P("uint64")), ("i", P("int64")), ("s", Opt(P("string"))), ("v", V(P("uint32")))])
+    protos.append(Proto("BtBigLongs", [("pre", P("uint8")), ("s", S(P("int64"))), ("post", P("string"))]))
+    protos.append(Proto("BtBigRecs", [("pre", P("uint8")), ("s", S(N("BtBigRec"))), ("post", P("string"))]))
+    return Pkg("Batch", [Inner, Outer, Triv, BtEnum, Flags, Mode, FlagInner, FlagRec, Gen, BigRec] + protos)
 
 
 def shaped_items(vg: values.ValueGen, t, n: int, r):
@@ -269,6 +272,31 @@ def run(ctx):
         ctx.count("big-array-items." + ep.name)
         rt.judge(ctx, m, proto, vals, data, res, ep.name, "bin", "70 float32[1024] items (%d bytes) read by %s" % (len(data), ep.name), {"big_array_items": True})
     ctx.case(("big-array-items", len(data)))
+    # streams several times longer than the readers' 64 KiB buffers whose items are multi-byte varints (large int64 / uint64, string lengths >= 128, vector
+    # lengths): whatever the partition and the phase (a pad string of 0..9 bytes in front), varints straddle the refill points; every reader, every mode
+    for pname in ("BtBigLongs", "BtBigRecs"):
+        proto = pkg.find(pname)
+        for phase in ((0, 3) if quick else range(10)):
+            r = rng("C17straddle", pname, phase)
+            n = 24000 if pname == "BtBigLongs" else 5000
+            if pname == "BtBigLongs":
+                items = [r.randrange(-(1 << 62), 1 << 62) if j % 7 else r.randrange(-300, 300) for j in range(n)]
+            else:
+                items = [[r.randrange(1 << 40, 1 << 64), r.randrange(-(1 << 62), 1 << 62), (None if j % 3 == 0 else (0, "s" * r.choice([0, 5, 127, 128, 200]))), [r.randrange(1 << 20, 1 << 32) for _ in range(r.choice([0, 1, 3]))]] for j in range(n)]
+            vals = [phase, items, "p" * phase]
+            sizes, left = [], n
+            while left:
+                k = min(left, r.choice([1, 7, 100, 1000, 5000]))
+                sizes.append(k)
+                left -= k
+            data = c.encode_stream(proto, m.schema(pname), vals, partitions={1: sizes})
+            eps = [rt.PyEndpoint(m), rt.PyEndpoint(m, mode="list"), rt.CppEndpoint(m, "plain", bufs=[64]), rt.CppEndpoint(m, "plain", bufs=[1])] + ([rt.PyEndpoint(m, mode="itemwise"), rt.PyEndpoint(m, mode="gen")] if phase == 0 or not quick else [])
+            for ep in eps:
+                res = ep.copy(pname, "bin", "bin", data)
+                ctx.ev()
+                ctx.count("straddling-varints." + ep.name)
+                rt.judge(ctx, m, proto, vals, data, res, ep.name, "bin", "%s: %d items with multi-byte varints in %d bytes (phase %d, %d blocks) read by %s" % (pname, n, len(data), phase, len(sizes), ep.name), {"straddling_varints": True})
+            ctx.case(("straddling-varints", pname, phase, len(data)))
     ctx.sample({"protocols": [p.name for p in pkg.protocols()], "capacities": CAPS, "jobs": len(jobs)})
     ctx.sample({"example_partitions_n4": partitions(4)})
     m.close()
